@@ -96,7 +96,8 @@ class Ctx:
         # runs against a scratch tree (LV_REPO, mutation drills) get their own work directory so that
         # several drills of the same property can run side by side with the real check
         tag = pid if os.path.realpath(REPO) == "/repo" else pid + "-" + hashlib.sha1(os.path.realpath(REPO).encode()).hexdigest()[:8]
-        self.work = os.path.join(VERIF, ".work", tag)
+        # one work directory per invocation, so that concurrent runs of the same check do not collide
+        self.work = os.path.join(VERIF, ".work", f"{tag}-p{os.getpid()}")
         shutil.rmtree(self.work, ignore_errors=True)
         os.makedirs(self.work, exist_ok=True)
         self.obligations = 0
